@@ -35,7 +35,8 @@ def enumLookup (name : String) (n : Nat) : String :=
 
 def dispatch (op : String) (args : List SExp) : String :=
   match op, args with
-  | "status", [.atom h] =>
+  | "status", (.atom h :: _) =>
+    -- optional further atoms (protocol version, request-id of the header): the decoding does not look at them
     (match hexToNat h with
      | some c => let s := statusOf c
                  s!"{String.fromUTF8! (ByteArray.mk s.ident.toArray)} {if isSuccess s then 1 else 0}"
